@@ -37,6 +37,7 @@ import (
 	"github.com/refraction-networking/conjure/internal/vlibc11"
 	"github.com/refraction-networking/conjure/pkg/core"
 	pdtls "github.com/refraction-networking/conjure/pkg/dtls"
+	"github.com/refraction-networking/conjure/pkg/station/liveness"
 	"github.com/refraction-networking/conjure/pkg/station/log"
 	"github.com/refraction-networking/conjure/pkg/transports"
 	"github.com/refraction-networking/conjure/pkg/transports/connecting/dtls"
@@ -50,6 +51,22 @@ import (
 )
 
 type c11NotLive struct{}
+
+var c11Entered, c11Left int64 // liveness checks of the real testers: entered / returned
+
+// c11Returned counts the liveness checks that RETURNED: the sign that a registration got through
+type c11Returned struct{ liveness.Tester }
+
+func (c c11Returned) PhantomIsLive(addr string, port uint16) (bool, error) {
+	if _, stub := c.Tester.(c11NotLive); stub {
+		return c.Tester.PhantomIsLive(addr, port) // counts itself
+	}
+	atomic.AddInt64(&c11Entered, 1)
+	live, err := c.Tester.PhantomIsLive(addr, port)
+	atomic.AddInt64(&c11Probes, 1)
+	atomic.AddInt64(&c11Left, 1)
+	return live, err
+}
 
 var c11Probes int64 // liveness probes asked for: the sign that a registration got through the ingest path
 
@@ -72,9 +89,9 @@ func (c11ConnStats) AddCreatedToSuccessfulConnecting(uint, string, string)   {}
 func (c11ConnStats) AddCreatedToTimeoutConnecting(uint, string, string)      {}
 func (c11ConnStats) AddSuccessfulToDiscardedConnecting(uint, string, string) {}
 func (c11ConnStats) AddOtherFailConnecting(uint, string, string)             {}
-func (c11NotLive) PrintAndReset(logger *log.Logger)                      {}
-func (c11NotLive) PrintStats(logger *log.Logger)                         {}
-func (c11NotLive) Reset()                                                {}
+func (c11NotLive) PrintAndReset(logger *log.Logger)                          {}
+func (c11NotLive) PrintStats(logger *log.Logger)                             {}
+func (c11NotLive) Reset()                                                    {}
 
 // c11Conn: a connection whose peer has gone: reads end at once, writes vanish.
 type c11Conn struct{}
@@ -116,10 +133,12 @@ func newC11Station(t *testing.T, out *vlib.Out, connecting bool) *c11Station {
 	if os.Getenv("VERIF_C11_FOREIGN") != "0" { // generations that ran into the C14 findings (zero total weight, leading-zero networks) before their repair
 		b, _ := os.ReadFile(subnets)
 		extra := "\n    [Networks.1001]\n        Generation = 1001\n        [[Networks.1001.WeightedSubnets]]\n            Weight = 0\n            Subnets = [\"192.122.190.0/24\", \"2001:48a8:687f:1::/64\"]\n" +
-			"\n    [Networks.1002]\n        Generation = 1002\n        [[Networks.1002.WeightedSubnets]]\n            Weight = 1\n            Subnets = [\"0.1.2.0/24\", \"64:ff9b::/96\"]\n"
+			"\n    [Networks.1002]\n        Generation = 1002\n        [[Networks.1002.WeightedSubnets]]\n            Weight = 1\n            Subnets = [\"0.1.2.0/24\", \"64:ff9b::/96\"]\n" +
+			// four IPv4 phantoms in all: registrations of this generation keep selecting the same ones (cache hits, refreshes, evictions)
+			"\n    [Networks.1003]\n        Generation = 1003\n        [[Networks.1003.WeightedSubnets]]\n            Weight = 1\n            Subnets = [\"10.77.0.0/30\", \"2001:db8:77::/64\"]\n"
 		subnets = filepath.Join(t.TempDir(), "phantom_subnets.toml")
 		_ = os.WriteFile(subnets, append(b, extra...), 0o644)
-		gens = append(gens, 1001, 1002)
+		gens = append(gens, 1001, 1002, 1003)
 	}
 	os.Setenv("PHANTOM_SUBNET_LOCATION", subnets)
 	devnull, _ := os.OpenFile(os.DevNull, os.O_WRONLY, 0)
@@ -785,63 +804,124 @@ func TestVerifC11StationChild(t *testing.T) {
 	// cannot use leaves the station deaf once all workers have met one)
 	const workers = 20
 	s.rm.IngestWorkerCount = workers
-	ctx, cancel := context.WithCancel(context.Background())
-	regChan := make(chan interface{})
-	wg := new(sync.WaitGroup)
-	wg.Add(1)
-	go s.rm.HandleRegUpdates(ctx, regChan, wg)
-	noPayload := vlibc11.Marshal(&pb.C2SWrapper{SharedSecret: s.r.Bytes(32)})
-	unknownGen := vlibc11.Marshal(s.validWrapper(s.r.Bytes(32), pb.TransportType_Min, &pb.GenericTransportParams{}, 4000000, false))
-	unknownTr := vlibc11.Marshal(s.validWrapper(s.r.Bytes(32), pb.TransportType(77), nil, 1, false))
-	shortSecret := vlibc11.Marshal(s.validWrapper(s.r.Bytes(3), pb.TransportType_Min, nil, 1, false))
-	badCovert := s.validWrapper(s.r.Bytes(32), pb.TransportType_Min, nil, 1, false)
-	badCovert.RegistrationPayload.CovertAddress = proto.String("1.2.3.4")
-	kinds := []struct {
-		name string
-		msg  func() []byte
-	}{
-		{"random-bytes", func() []byte { return s.r.Bytes(1 + s.r.Intn(60)) }},
-		{"empty", func() []byte { return nil }},
-		{"no-payload", func() []byte { return noPayload }},
-		{"unknown-generation", func() []byte { return unknownGen }},
-		{"unknown-transport", func() []byte { return unknownTr }},
-		{"short-secret", func() []byte { return shortSecret }},
-		{"malformed-covert", func() []byte { return vlibc11.Marshal(badCovert) }},
-		{"truncated", func() []byte { return unknownGen[:len(unknownGen)/2] }},
-		{"structured", func() []byte { return vlibc11.Marshal(s.g.Wrapper(s.r.Intn(1000))) }},
-		{"mutated", func() []byte { return s.g.Mutate(vlibc11.Marshal(s.g.Wrapper(s.r.Intn(1000)))) }},
+	// the liveness tester the station is configured with is a dimension: the stub, and the real testers
+	// (probe replaced, nothing is sent) without cache, with map caches, and with LRU caches of capacity 1..4,
+	// where every other registration evicts an entry while 20 workers look the same four phantoms up
+	probe := func(a string) (bool, error) {
+		h, _, _ := net.SplitHostPort(a)
+		return strings.HasSuffix(h, ".1"), nil
 	}
-	for _, k := range kinds {
-		var sample []byte
-		for i := 0; i < 3*workers; i++ {
-			sample = k.msg()
-			regChan <- sample
-			if i%workers == workers-1 {
-				time.Sleep(time.Millisecond) // let the workers take what the distributor holds
+	type testerKind struct {
+		name string
+		mk   func() liveness.Tester
+	}
+	cached := func(conf *liveness.Config) func() liveness.Tester {
+		return func() liveness.Tester {
+			t, err := liveness.NewVerifC11Cached(conf, probe)
+			if err != nil {
+				return c11NotLive{}
+			}
+			return t
+		}
+	}
+	testers := []testerKind{{"stub", func() liveness.Tester { return c11NotLive{} }},
+		{"uncached", func() liveness.Tester { return liveness.NewVerifC11Uncached(probe) }},
+		{"map-cache", cached(&liveness.Config{CacheDuration: "1h", CacheDurationNonLive: "1h"})},
+		{"lru-1", cached(&liveness.Config{CacheDuration: "1h", CacheCapacity: 1, CacheDurationNonLive: "1h", CacheCapacityNonLive: 1})},
+		{"lru-2", cached(&liveness.Config{CacheDuration: "1h", CacheCapacity: 2, CacheDurationNonLive: "1h", CacheCapacityNonLive: 2})},
+		{"lru-4", cached(&liveness.Config{CacheDuration: "1h", CacheCapacity: 4, CacheDurationNonLive: "1h", CacheCapacityNonLive: 4})}}
+	dead := 0
+	for _, tk := range testers {
+		if dead >= 2 {
+			break
+		}
+		s.rm.LivenessTester = c11Returned{tk.mk()}
+		ctx, cancel := context.WithCancel(context.Background())
+		regChan := make(chan interface{})
+		wg := new(sync.WaitGroup)
+		wg.Add(1)
+		go s.rm.HandleRegUpdates(ctx, regChan, wg)
+		noPayload := vlibc11.Marshal(&pb.C2SWrapper{SharedSecret: s.r.Bytes(32)})
+		unknownGen := vlibc11.Marshal(s.validWrapper(s.r.Bytes(32), pb.TransportType_Min, &pb.GenericTransportParams{}, 4000000, false))
+		unknownTr := vlibc11.Marshal(s.validWrapper(s.r.Bytes(32), pb.TransportType(77), nil, 1, false))
+		shortSecret := vlibc11.Marshal(s.validWrapper(s.r.Bytes(3), pb.TransportType_Min, nil, 1, false))
+		badCovert := s.validWrapper(s.r.Bytes(32), pb.TransportType_Min, nil, 1, false)
+		badCovert.RegistrationPayload.CovertAddress = proto.String("1.2.3.4")
+		kinds := []struct {
+			name string
+			msg  func() []byte
+		}{
+			{"random-bytes", func() []byte { return s.r.Bytes(1 + s.r.Intn(60)) }},
+			{"empty", func() []byte { return nil }},
+			{"no-payload", func() []byte { return noPayload }},
+			{"unknown-generation", func() []byte { return unknownGen }},
+			{"unknown-transport", func() []byte { return unknownTr }},
+			{"short-secret", func() []byte { return shortSecret }},
+			{"malformed-covert", func() []byte { return vlibc11.Marshal(badCovert) }},
+			{"truncated", func() []byte { return unknownGen[:len(unknownGen)/2] }},
+			{"structured", func() []byte { return vlibc11.Marshal(s.g.Wrapper(s.r.Intn(1000))) }},
+			{"mutated", func() []byte { return s.g.Mutate(vlibc11.Marshal(s.g.Wrapper(s.r.Intn(1000)))) }},
+		}
+		for _, k := range kinds {
+			var sample []byte
+			for i := 0; i < 3*workers; i++ {
+				sample = k.msg()
+				regChan <- sample
+				if i%workers == workers-1 {
+					time.Sleep(time.Millisecond) // let the workers take what the distributor holds
+				}
+			}
+			// a burst of well-formed registrations that keep selecting the same four phantoms
+			if tk.name != "stub" {
+				burst := 10 * workers
+				if strings.HasPrefix(tk.name, "lru") {
+					burst = 60 * workers // evictions need company
+				}
+				for i := 0; i < burst; i++ {
+					select {
+					case regChan <- vlibc11.Marshal(s.validWrapper(s.r.Bytes(32), pb.TransportType_Min, &pb.GenericTransportParams{}, 1003, false)):
+					case <-time.After(15 * time.Second): // nobody takes messages any more: the probe below says so
+						i = burst
+					}
+				}
+			}
+			before := atomic.LoadInt64(&c11Probes)
+			alive := false
+			for deadline := time.Now().Add(15 * time.Second); time.Now().Before(deadline) && !alive; {
+				select {
+				case regChan <- vlibc11.Marshal(s.validWrapper(s.r.Bytes(32), pb.TransportType_Min, &pb.GenericTransportParams{}, 1, false)):
+				case <-time.After(time.Second):
+				}
+				time.Sleep(time.Millisecond)
+				alive = atomic.LoadInt64(&c11Probes) > before
+			}
+			// … and no worker may be left inside a liveness check: a worker that never comes back is one worker
+			// less for good, long before the last one is gone
+			for deadline := time.Now().Add(15 * time.Second); alive && time.Now().Before(deadline) && atomic.LoadInt64(&c11Entered) != atomic.LoadInt64(&c11Left); {
+				time.Sleep(time.Millisecond)
+			}
+			if alive && atomic.LoadInt64(&c11Entered) != atomic.LoadInt64(&c11Left) {
+				alive = false
+				atomic.StoreInt64(&c11Left, atomic.LoadInt64(&c11Entered)) // reported once
+			}
+			if alive {
+				count("pipeline:" + tk.name + ":alive-after-" + k.name)
+			} else {
+				dead++
+				fmt.Fprintf(progress, "PIPELINE-DEAD %s %s %s %s\n", k.name, hex.EncodeToString(sample), tk.name, strings.ReplaceAll(vlibc11.Stacks(5), " ", "_"))
+				break // the workers of this configuration are gone or stuck: nothing more to learn from it
 			}
 		}
-		before := atomic.LoadInt64(&c11Probes)
-		alive := false
-		for deadline := time.Now().Add(15 * time.Second); time.Now().Before(deadline) && !alive; {
-			regChan <- vlibc11.Marshal(s.validWrapper(s.r.Bytes(32), pb.TransportType_Min, &pb.GenericTransportParams{}, 1, false))
-			time.Sleep(time.Millisecond)
-			alive = atomic.LoadInt64(&c11Probes) > before
+		cancel()
+		stopped := make(chan struct{})
+		go func() { wg.Wait(); close(stopped) }()
+		select {
+		case <-stopped:
+			count("pipeline:stopped")
+		case <-time.After(15 * time.Second):
+			fmt.Fprintf(progress, "PIPELINE-STUCK\n")
 		}
-		if alive {
-			count("pipeline:alive-after-" + k.name)
-		} else {
-			fmt.Fprintf(progress, "PIPELINE-DEAD %s %s\n", k.name, hex.EncodeToString(sample))
-		}
-	}
-	cancel()
-	stopped := make(chan struct{})
-	go func() { wg.Wait(); close(stopped) }()
-	select {
-	case <-stopped:
-		count("pipeline:stopped")
-	case <-time.After(15 * time.Second):
-		fmt.Fprintf(progress, "PIPELINE-STUCK\n")
-	}
+	} // tester kinds
 	hmu.Lock()
 	for k, v := range hist {
 		fmt.Fprintf(progress, "COUNT %s %d\n", k, v)
@@ -915,6 +995,12 @@ func (s *c11Station) zmqChild(t *testing.T, msgs [][]byte, pipeline bool) {
 				}
 			case strings.HasPrefix(l, "PIPELINE-DEAD ") && len(f) == 3:
 				s.out.OracleFail("C11:zmq-pipeline:workers-lost-on-bad-input", "after a batch of "+f[1]+" messages no well-formed registration reached the liveness probe for 15 s: the ingest workers are gone or stuck", "zmqpipe|"+f[1]+"|"+f[2])
+			case strings.HasPrefix(l, "PIPELINE-DEAD ") && len(f) == 5:
+				if f[3] == "stub" {
+					s.out.OracleFail("C11:zmq-pipeline:workers-lost-on-bad-input", "after a batch of "+f[1]+" messages no well-formed registration reached the liveness probe for 15 s: the ingest workers are gone or stuck", "zmqpipe|"+f[1]+"|"+f[2])
+				} else {
+					s.out.OracleFail("C11:zmq-ingest:hang-after-batch", "station with the liveness tester "+f[3]+": after a batch of "+f[1]+" messages and a burst of well-formed registrations that select the same four phantoms, no well-formed registration got through its liveness check for 15 s, or workers that entered a liveness check had not come back after 15 s - ingest workers are stuck: "+strings.ReplaceAll(f[4], "_", " "), "zmqpipe|"+f[1]+"|"+f[2]+"|"+f[3])
+				}
 			case l == "PIPELINE-STUCK":
 				s.out.OracleFail("C11:zmq-pipeline:does-not-stop", "HandleRegUpdates had not returned 15 s after its context was cancelled", "zmqpipe|stop")
 			case strings.HasPrefix(l, "COUNT ") && len(f) == 3:
